@@ -176,6 +176,14 @@ impl<T: Qcow2IoOps> Qcow2Dev<T> {
     ) -> Qcow2Result<usize> {
         match mapping.cluster_offset {
             Some(off) => {
+                // A freshly allocated cluster that its first writer hasn't
+                // zeroed yet still holds the bytes of its previous owner;
+                // until then it reads as zero.
+                if self.cluster_is_new(off >> self.info.cluster_bits()).await {
+                    zero_buf!(buf);
+                    return Ok(buf.len());
+                }
+
                 let done = self.call_read(off + off_in_cls as u64, buf).await?;
 
                 // An allocated cluster is zeroed by punching a hole, which
